@@ -223,7 +223,8 @@ Lemma set_range_get : forall n h base g z, (forall ob, g (g ob) = g ob) -> g dob
   get_obj (set_range h base n g) z = if (base <=? z) && (z <? base + n) then g (get_obj h z) else get_obj h z.
 Proof.
   induction n as [|n IH]; intros h base g z Hg Hd; cbn [set_range].
-  - replace (z <? base + 0) with false by (symmetry; apply Nat.ltb_ge; lia). rewrite andb_false_r. reflexivity.
+  - destruct (base <=? z) eqn:E1; cbn [andb]; auto. apply Nat.leb_le in E1.
+    replace (z <? base + 0) with false by (symmetry; apply Nat.ltb_ge; lia). reflexivity.
   - rewrite IH by auto.
     destruct (Nat.eq_dec z (base + n)) as [->|Hne].
     + assert (E1 : (base <=? base + n) = true) by (apply Nat.leb_le; lia).
@@ -253,7 +254,7 @@ Proof.
   intros s t stk sd rest prog C h' stk' todo' p' ev Hdo. pose proof C as [I Ht E].
   cbn in Hdo. destruct (range_all (s_heap s) (sl_base sd) N is_pooled_st) eqn:Hr; inversion Hdo; subst; clear Hdo; split; try reflexivity.
   - pose proof (range_all_spec _ _ _ _ Hr) as Hpooled.
-    apply (state_core s t stk' (ASlabDel sd) rest prog (fun z => (sl_base sd <=? z) && (z <? sl_base sd + N)) _ []); auto.
+    apply (state_core s t stk' (ASlabDel sd) todo' prog (fun z => (sl_base sd <=? z) && (z <? sl_base sd + N)) _ []); auto.
     + apply set_range_length.
     + intros z Ez. rewrite set_range_get by auto. rewrite Ez. reflexivity.
     + intros z Ez. cbn zeta. rewrite set_range_get by auto. rewrite Ez.
@@ -264,11 +265,11 @@ Proof.
       { destruct (lt_dec z (length (s_heap s))); auto. unfold get_obj in Est. rewrite nth_overflow in Est by lia. discriminate. }
       destruct (i_mem K s I z Hz) as (_ & Hq). unfold quiet, hobj in Hq. rewrite Est in Hq.
       cbn. unfold is_live, is_releasing. rewrite Est. repeat split; auto. discriminate.
-    + intros z. cbn. destruct ((sl_base sd <=? z) && (z <? sl_base sd + N)) eqn:Ez; auto.
+    + intros z. cbn [rel_count]. destruct ((sl_base sd <=? z) && (z <? sl_base sd + N)) eqn:Ez; auto.
       apply andb_true_iff in Ez. destruct Ez as (E1 & E2). apply Nat.leb_le in E1. apply Nat.ltb_lt in E2.
       assert (Hp : is_pooled_st (get_obj (s_heap s) z) = true) by (apply Hpooled; lia).
       unfold is_pooled_st in Hp. unfold is_releasing. destruct (o_st (get_obj (s_heap s) z)); try discriminate; reflexivity.
-  - apply (pop_core s t stk' (ASlabDel sd) rest prog (s_pool s) C); auto.
+  - apply (pop_core s t stk' (ASlabDel sd) todo' prog (s_pool s) C); auto.
 Qed.
 
 End Acts3.
